@@ -55,6 +55,15 @@ Theorem build_loop_consumes_lines : forall lines,
 Proof. exact (fun lines => conj (continuation_length lines) (continuation_suffix lines)). Qed.
 Print Assumptions build_loop_consumes_lines.
 
+(* framing.resolveFramer (model): a name that resolves does so to a FRAMER of the registry --
+   never to a logger/server sharing the tasker registry, with or without schedule contexts --
+   and, when contexts are given, to one scheduled in one of them. *)
+Theorem resolve_framer_only_framers : forall reg name contexts s,
+  resolve_framer reg name contexts = FOk s ->
+  lookup_t reg name = Some (TFramer s) /\ (contexts = [] \/ memN s contexts = true).
+Proof. exact resolve_framer_only_framers_l. Qed.
+Print Assumptions resolve_framer_only_framers.
+
 (* non-vacuity: the format checkers do reject the defects they are about *)
 Example c14_fmt_rejects :
   (* "reserved '{0}' instead" % (value)        : 1 argument, no %-conversion *)
